@@ -219,14 +219,19 @@ CP_DEC = ["k_color_profile_15", "k_color_profile_16", "k_color_profile_20"]
 
 # Kani shapes that need 7 - 60+ minutes each (Vec<struct with String> drop glue, hashbrown): thorough tier only
 HEAVY = ["k_tags_chunk_30", "k_tags_chunk_49", "k_slice_chunk_14", "k_slice_chunk_34", "k_slice_chunk_58", "k_palette_chunk_20", "k_palette_chunk_26", "k_palette_chunk_35",
-         "k_old04_chunk_10", "k_old11_chunk_10", "k_old11_chunk_13", "k_validate_indexed", "k_indexed_as_rgba", "k_ext_files_27", "k_tileset_head_34", "k_tileset_head_44", "k_cels_table"]
+         "k_old04_chunk_10", "k_old11_chunk_10", "k_old11_chunk_13", "k_validate_indexed", "k_indexed_as_rgba", "k_ext_files_27", "k_ext_files_41", "k_tileset_head_34", "k_tileset_head_44", "k_cels_table"]
 from registry import OBL
 for _h in HEAVY:
     OBL[_h].tier = "thorough"
     OBL[_h].timeout = 5400
 
 def prop(id, level, obls, explanation, **kw):
-    d = {"level": level, "obligations": obls, "explanation": explanation}
+    seen, uniq = set(), []
+    for o in obls:
+        if o not in seen:
+            seen.add(o)
+            uniq.append(o)
+    d = {"level": level, "obligations": uniq, "explanation": explanation}
     d.update(kw)
     PROPS[id] = d
 
